@@ -8,6 +8,31 @@ HERE = os.path.dirname(os.path.dirname(os.path.abspath(__file__)))
 ALL = ["C%02d" % i for i in range(1, 21)]
 
 CHECKS = {
+ "C12": dict(
+  category="exploration",
+  text="Reference-model monitor: generated scope trees (main module, optional imported module, module-level types, subtypes "
+       "nested up to three deep, parameters, fields with abbreviations, enum values, structure-typed fields) with planted "
+       "references whose intended target is computed by the model's own resolver of the stated scoping rules (simple and dotted "
+       "type names, imported names, enum values, fields, abbreviations, parameters, member paths); after the real front end ran up "
+       "to type annotation every planted reference's Reference.canonical_name (matched by source position) equals the intended "
+       "target, every definition's canonical name is unique and leads back to it through the real ir_util.find_object, and one "
+       "injected fault per faulty module (missing name, duplicate in one scope, name visible from two scopes, abbreviation through "
+       "a member path or from a sibling structure, enclosing structure's field, bare enum value) yields exactly the matching error.",
+  note="Scoping rules as stated in the property; pipeline stopped before type annotation so later passes cannot mask name errors.",
+  technique="runtime reference-model monitoring of symbol resolution with planted targets and injected faults",
+  design_ref="5/C12"),
+ "C13": dict(
+  category="exploration",
+  text="Acceptance oracle known by construction: a typed expression generator (integer / boolean / enum sorts over <= 8-bit "
+       "sources and small constants) fills every expression position of a base module (offset, size, array length, enum value, "
+       "condition, [requires] on field and structure, parameter arguments, virtual values, $max / $present / bound functions, "
+       "?:) and must be accepted; 75% of cases break exactly one rule of a ~45-rule catalogue at one site and must be rejected, "
+       "without crashing, with a non-synthetic error located inside the definition that contains the offending construct. "
+       "Upstream gaps (enum values and enum-typed parameters are not type-checked, ordering on enums accepted, several crashes) "
+       "are listed as known findings by rule / crash site.",
+  note="Known findings are keyed by the broken rule or by (exception type, innermost repo frame).",
+  technique="runtime acceptance monitoring with constructed positive class and single-rule negative catalogue",
+  design_ref="5/C13"),
  "C15": dict(
   category="exploration",
   text="(a) planted random reference graphs (2-14 nodes, chains up to 110/200) over virtual fields, field locations, conditions, "
